@@ -34,4 +34,80 @@ LocalZoneText(zh, zm, form) ==
   ELSE CASE form = "extended" -> ZoneText(zh, zm, "hh:mm")
          [] form = "reduced" /\ zm = 0 -> ZoneText(zh, zm, "hh")
          [] OTHER -> ZoneText(zh, zm, "hhmm")
+
+
+\* ---- generic helpers -----------------------------------------------------------------------
+Pow10T(k) == CASE k = 0 -> 1 [] k = 1 -> 10 [] k = 2 -> 100 [] k = 3 -> 1000 [] k = 4 -> 10000 [] k = 5 -> 100000
+               [] k = 6 -> 1000000 [] k = 7 -> 10000000 [] k = 8 -> 100000000 [] OTHER -> 1000000000
+RECURSIVE DigitsVal(_, _)
+\* value of the first k digits of a digit sequence ds (digits are 0..9, not code points)
+DigitsVal(ds, k) == IF k = 0 THEN 0 ELSE DigitsVal(ds, k - 1) * 10 + ds[k]
+\* a decimal fraction 0.ds in micro-units, truncated after 6 digits (callers allow +1 for the rounding of longer inputs)
+Micro6(ds) == IF Len(ds) >= 6 THEN DigitsVal(ds, 6) ELSE DigitsVal(ds, Len(ds)) * Pow10T(6 - Len(ds))
+DigitCodes(ds) == [i \in 1..Len(ds) |-> CH0 + ds[i]]
+RECURSIVE StripZeros(_)
+StripZeros(ds) == IF Len(ds) > 1 /\ ds[Len(ds)] = 0 THEN StripZeros(SubSeq(ds, 1, Len(ds) - 1)) ELSE ds
+
+\* ---- dates ---------------------------------------------------------------------------------
+\* g: [dform, xd, neg, y (absolute value), a, b]
+YearText(g) == IF g.xd > 0 THEN <<IF g.neg THEN CHMinus ELSE CHPlus>> \o Digits(g.y, 4 + g.xd) ELSE Digits(g.y, 4)
+CenturyText(g) == IF g.xd > 0 THEN <<IF g.neg THEN CHMinus ELSE CHPlus>> \o Digits(g.y \div 100, 2 + g.xd) ELSE Digits(g.y \div 100, 2)
+DateText(g) ==
+  CASE g.dform = "cal-b"  -> YearText(g) \o Digits(g.a, 2) \o Digits(g.b, 2)
+    [] g.dform = "cal-e"  -> YearText(g) \o <<CHMinus>> \o Digits(g.a, 2) \o <<CHMinus>> \o Digits(g.b, 2)
+    [] g.dform = "ord-b"  -> YearText(g) \o Digits(g.a, 3)
+    [] g.dform = "ord-e"  -> YearText(g) \o <<CHMinus>> \o Digits(g.a, 3)
+    [] g.dform = "week-b" -> YearText(g) \o <<CHW>> \o Digits(g.a, 2) \o Digits(g.b, 1)
+    [] g.dform = "week-e" -> YearText(g) \o <<CHMinus, CHW>> \o Digits(g.a, 2) \o <<CHMinus>> \o Digits(g.b, 1)
+    [] g.dform = "ym"     -> YearText(g) \o <<CHMinus>> \o Digits(g.a, 2)           \* reduced; same in basic and extended
+    [] g.dform = "y"      -> YearText(g)
+    [] g.dform = "c"      -> CenturyText(g)
+    [] g.dform = "yw-b"   -> YearText(g) \o <<CHW>> \o Digits(g.a, 2)
+    [] g.dform = "yw-e"   -> YearText(g) \o <<CHMinus, CHW>> \o Digits(g.a, 2)
+    [] OTHER -> <<>>
+DateIsComplete(f) == f \in {"cal-b", "cal-e", "ord-b", "ord-e", "week-b", "week-e"}
+DateIsBasic(f)    == f \in {"cal-b", "ord-b", "week-b", "ym", "y", "c", "yw-b"}
+DateIsExtended(f) == f \in {"cal-e", "ord-e", "week-e", "ym", "yw-e"}
+DateRep(f) == CASE f \in {"ord-b", "ord-e"} -> "ord" [] f \in {"week-b", "week-e", "yw-b", "yw-e"} -> "week" [] OTHER -> "cal"
+
+\* ---- times ---------------------------------------------------------------------------------
+\* g: [tform ("none" | "hms-b" | "hm-b" | "h" | "hms-e" | "hm-e"), hh, mi, ss, ds (decimal digits of the last unit, <<>> = none), sep]
+DecText(g) == IF Len(g.ds) = 0 THEN <<>> ELSE <<g.sep>> \o DigitCodes(g.ds)
+TimeText(g) ==
+  CASE g.tform = "hms-b" -> Digits(g.hh, 2) \o Digits(g.mi, 2) \o Digits(g.ss, 2) \o DecText(g)
+    [] g.tform = "hm-b"  -> Digits(g.hh, 2) \o Digits(g.mi, 2) \o DecText(g)
+    [] g.tform = "h"     -> Digits(g.hh, 2) \o DecText(g)
+    [] g.tform = "hms-e" -> Digits(g.hh, 2) \o <<CHColon>> \o Digits(g.mi, 2) \o <<CHColon>> \o Digits(g.ss, 2) \o DecText(g)
+    [] g.tform = "hm-e"  -> Digits(g.hh, 2) \o <<CHColon>> \o Digits(g.mi, 2) \o DecText(g)
+    [] OTHER -> <<>>
+TimeIsBasic(f)    == f \in {"hms-b", "hm-b", "h"}
+TimeIsExtended(f) == f \in {"hms-e", "hm-e", "h"}
+ZoneIsBasic(f)    == f \in {"Z", "hh", "hhmm"}
+ZoneIsExtended(f) == f \in {"Z", "hh", "hh:mm"}
+
+\* the whole expression: date [T time [zone]]
+TPText(g) ==
+  IF g.tform = "none" THEN DateText(g)
+  ELSE DateText(g) \o <<CHT>> \o TimeText(g) \o (IF g.zform = "none" THEN <<>> ELSE ZoneText(g.zh, g.zm, g.zform))
+
+\* is the combination a documented expression?  (a time needs a complete date; basic goes with basic, extended with extended)
+WellFormed(g) ==
+  IF g.tform = "none" THEN TRUE
+  ELSE /\ DateIsComplete(g.dform)
+       /\ \/ DateIsBasic(g.dform) /\ TimeIsBasic(g.tform) /\ (g.zform = "none" \/ ZoneIsBasic(g.zform))
+          \/ DateIsExtended(g.dform) /\ TimeIsExtended(g.tform) /\ (g.zform = "none" \/ ZoneIsExtended(g.zform))
+\* does the expression exist in basic notation (accepted by a basic-only parser)?
+AllBasic(g) == DateIsBasic(g.dform) /\ (g.tform = "none" \/ (TimeIsBasic(g.tform) /\ (g.zform = "none" \/ ZoneIsBasic(g.zform))))
+
+\* what the expression denotes: representation, date fields with defaults, precision form, exact time of day
+ExpYear(g)  == IF g.dform = "c" THEN (IF g.neg THEN -1 ELSE 1) * (g.y \div 100) * 100 ELSE (IF g.neg THEN -g.y ELSE g.y)
+ExpA(g) == IF g.dform \in {"y", "c"} THEN 1 ELSE g.a
+ExpB(g) == CASE g.dform \in {"ym", "y", "c", "yw-b", "yw-e"} -> 1 [] DateRep(g.dform) = "ord" -> 0 [] OTHER -> g.b
+ExpPrec(g) == IF g.tform = "none" \/ Len(g.ds) = 0 THEN "hms"
+              ELSE CASE g.tform \in {"hms-b", "hms-e"} -> "hms" [] g.tform \in {"hm-b", "hm-e"} -> "hm" [] OTHER -> "h"
+ExpH(g) == IF g.tform = "none" THEN 0 ELSE g.hh
+ExpM(g) == IF g.tform \in {"none", "h"} THEN 0 ELSE g.mi
+ExpS(g) == IF g.tform \in {"hms-b", "hms-e"} THEN g.ss ELSE 0
+
+\* the zone text the dumper writes back for a zero offset is the same spelling with a '+' sign
 =============================================================================
